@@ -29,12 +29,22 @@ def resolve(path):
     return obj
 
 
-def from_json(v, recipes=None):
-    """inverse of verify.concretize"""
+def from_json(v, recipes=None, refs=None):
+    """inverse of verify.concretize (objects occurring several times are rebuilt once: __id__/__ref__)"""
     recipes = recipes or {}
+    if refs is None:
+        refs = {}
+    return _from_json(v, recipes, refs)
+
+
+def _from_json(v, recipes, refs):
+    def from_json(x, r=None):
+        return _from_json(x, recipes, refs)
     if isinstance(v, list):
         return [from_json(x, recipes) for x in v]
     if isinstance(v, dict):
+        if '__ref__' in v:
+            return refs[v['__ref__']]
         if '__tuple__' in v:
             return tuple(from_json(x, recipes) for x in v['__tuple__'])
         if '__set__' in v:
@@ -53,14 +63,19 @@ def from_json(v, recipes=None):
                 return r(v['__opaque__'], v.get('truth'))
             return Opaque(v['__opaque__'], v.get('truth', True))
         if '__class__' in v:
-            fields = {k: from_json(x, recipes) for k, x in v['fields'].items()}
             r = recipes.get(v['__class__'])
             if r is not None:
-                return r(fields)
+                fields = {k: from_json(x, recipes) for k, x in v['fields'].items()}
+                obj = r(fields)
+                if '__id__' in v:
+                    refs[v['__id__']] = obj
+                return obj
             cls = resolve(v['__class__'])
             obj = object.__new__(cls)
-            for k, x in fields.items():
-                object.__setattr__(obj, k, x)
+            if '__id__' in v:
+                refs[v['__id__']] = obj         # registered before the fields: cyclic references resolve
+            for k, x in v['fields'].items():
+                object.__setattr__(obj, k, from_json(x, recipes))
             return obj
         if '__repr__' in v:
             raise ValueError(f"value without a native form: {v['__repr__']}")
